@@ -30,6 +30,8 @@ func runC10(c *Ctx) {
 	c.Rule("R10.8", 4, "the slice a memoising attribute hands out is not kept or extended as it is (follow sets own their storage)")
 	c.Rule("R10.6", 8, "memoised attributes (nullable/firstpos/lastpos) are evaluated only after positions have been assigned")
 
+	c.Rule("R10.10", 1, "the equality that identifies the states of the direct construction tests both inclusions")
+	checkPosSetEquality(c, "R10.10")
 	c.Rule("R10.9", 1, "a character group is a set in both routes: listing a character twice is listing it once (= R2.6)")
 	checkMembershipIdempotent(c, "R10.9", "internal/regex/parser/nfa", "internal/regex/parser/ast")
 	ap := c.Pkg("internal/regex/parser/ast")
@@ -1320,5 +1322,91 @@ func checkCopyDeep(c *Ctx, p *packages.Package, rule string) {
 		default:
 			c.Pass(rule, key, cc.Pos(), "")
 		}
+	}
+}
+
+
+// checkPosSetEquality (R10.10): a state of the direct construction is a set of positions kept as a list, and lists built by
+// appending follow sets can name a position twice. The equality that decides "this set is already a state" must therefore test
+// both inclusions; "same length and one inclusion" calls [1,1,2] and [1,2,3] equal, and the construction then re-uses the wrong
+// state. Decided on the methods `Equal` of the package's named slice types: for each, the loops that test membership of the
+// elements of one operand in the other must go both ways.
+func checkPosSetEquality(c *Ctx, rule string) {
+	ap := c.Pkg("internal/regex/parser/ast")
+	if ap == nil {
+		return
+	}
+	info := ap.TypesInfo
+	found := 0
+	AllFuncDecls(ap, func(fd *ast.FuncDecl) {
+		if fd.Recv == nil || fd.Body == nil || fd.Name.Name != "Equal" || len(fd.Recv.List) != 1 || len(fd.Recv.List[0].Names) != 1 {
+			return
+		}
+		rt := info.TypeOf(fd.Recv.List[0].Type)
+		if rt == nil {
+			return
+		}
+		sl, ok := rt.Underlying().(*types.Slice)
+		if !ok {
+			return
+		}
+		if b, ok := sl.Elem().Underlying().(*types.Basic); !ok || b.Info()&types.IsInteger == 0 {
+			return
+		}
+		if fd.Type.Params == nil || len(fd.Type.Params.List) != 1 || len(fd.Type.Params.List[0].Names) != 1 {
+			return
+		}
+		found++
+		recv := info.Defs[fd.Recv.List[0].Names[0]]
+		other := info.Defs[fd.Type.Params.List[0].Names[0]]
+		// range X { … Y.Contains(elem) … }  (or slices.Contains(Y, elem))
+		dirs := map[[2]types.Object]bool{}
+		unknown := false
+		ast.Inspect(fd.Body, func(n ast.Node) bool {
+			rs, ok := n.(*ast.RangeStmt)
+			if !ok {
+				return true
+			}
+			xid, ok := ast.Unparen(rs.X).(*ast.Ident)
+			if !ok {
+				unknown = true
+				return true
+			}
+			over := info.Uses[xid]
+			ast.Inspect(rs.Body, func(m ast.Node) bool {
+				call, ok := m.(*ast.CallExpr)
+				if !ok {
+					return true
+				}
+				if sel, ok := call.Fun.(*ast.SelectorExpr); ok && sel.Sel.Name == "Contains" {
+					if yid, ok := ast.Unparen(sel.X).(*ast.Ident); ok {
+						if o := info.Uses[yid]; o == recv || o == other {
+							dirs[[2]types.Object{over, o}] = true
+						} else if len(call.Args) == 2 {
+							if y2, ok := ast.Unparen(call.Args[0]).(*ast.Ident); ok {
+								dirs[[2]types.Object{over, info.Uses[y2]}] = true
+							}
+						}
+					}
+				}
+				return true
+			})
+			return true
+		})
+		key := funcKey(ap, fd) + ": equality of position lists tests both inclusions"
+		fwd, back := dirs[[2]types.Object{recv, other}], dirs[[2]types.Object{other, recv}]
+		switch {
+		case fwd && back:
+			c.Pass(rule, key, fd.Pos(), "")
+		case fwd || back:
+			c.Fail(rule, key, fd.Pos(), "only one inclusion is tested (a comparison of the lengths does not make up for the other: the lists can name a position twice): two different sets of positions are taken for one state of the automaton",
+				"((aaa)*(aa)*)*aa no longer matches aaaa on the direct route")
+		default:
+			_ = unknown
+			c.Undecided(rule, key, fd.Pos(), "the equality is not written as membership loops over its two operands")
+		}
+	})
+	if found == 0 {
+		c.Undecided(rule, "equality of position lists tests both inclusions", token.NoPos, "no Equal method on a list of positions was found")
 	}
 }
